@@ -64,7 +64,7 @@ def run_native(cmd, args, seed, timeout=900):
             try:
                 rec = json.loads(line)
             except ValueError:
-                rec = {"name": cmd, "status": "unparsable", "raw": line[:500]}
+                rec = {"name": cmd, "status": "unparsable", "raw": line[:500], "violation": {"input": {"raw": line[:800]}, "real": "unparsable report of the native tool", "expected": ""} if '"violation": {' in line else None}
     if rec is None:
         return {"name": cmd, "status": "crashed", "exit": p.returncode, "stderr": p.stderr[-1500:], "wall_s": round(time.time() - t0, 1)}
     rec["wall_s"] = round(time.time() - t0, 1)
@@ -73,12 +73,24 @@ def run_native(cmd, args, seed, timeout=900):
     return rec
 
 
+_cex_cache = {}
+
+
 def counterexample(pid, obligation, bdir, seed):
-    """concrete failing input for a failed obligation of property pid, replayed on the real code; None if none found"""
+    """concrete failing input for a failed obligation of property pid, replayed on the real code; None if none found.
+    One search per property and run (shared by all failed obligations), with a hard time cap."""
+    if pid in _cex_cache:
+        return _cex_cache[pid]
+    _cex_cache[pid] = _counterexample(pid, seed)
+    return _cex_cache[pid]
+
+
+def _counterexample(pid, seed):
     if pid not in NATIVE or not build():
         return None
+    cap = int(os.environ.get("VERIF_CEX_TIMEOUT", "240" if os.environ.get("VERIF_TIER", "quick") != "thorough" else "900"))
     for cmd, qa, ta in NATIVE[pid]:
-        rec = run_native(cmd, ta if ta else qa, seed, timeout=600)
+        rec = run_native(cmd, qa if cap <= 240 else (ta if ta else qa), seed, timeout=cap)
         if rec.get("status") == "violation":
             v = rec["violation"]
             return {"input": v.get("input"), "real": v.get("real"), "expected": v.get("expected"), "reproduced": True,
